@@ -34,7 +34,7 @@ RULE = ('source streams (valid images, zeros, random, crafted parser-breaking co
         'boundary fault (inspector x chunk index x exception type) exhaustively, multiple faults sampled, line-level '
         'failpoints inside the inspectors\' own code (sys.monitoring), natural parser faults. non-trivial = plan with '
         'at least one fault or an expected format; distinct by (stream, schedule, source kind, expected, allowed, plan)')
-REQUIRED_CLAUSES = ['expected_format-given-as-str-subclass', 'empty-chunk-midstream', 'T1-conservation', 'T2-never-fed-after-raise', 'T3-exactly-once-in-order', 'T4-isolation',
+REQUIRED_CLAUSES = ['T6-finish-only-at-end-of-stream', 'source-error-then-retry', 'expected_format-given-as-str-subclass', 'empty-chunk-midstream', 'T1-conservation', 'T2-never-fed-after-raise', 'T3-exactly-once-in-order', 'T4-isolation',
                     'T5-own-exception-propagates', 'T5-mismatch-abort', 'T5-no-read-beyond-abort', 'line-failpoint-fired',
                     'natural-fault-observed']
 ASSUMPTIONS = ['only Exception subclasses are injected (the wrapper does not promise to stop BaseException)',
@@ -57,6 +57,10 @@ EXC_POOL = ['ValueError', 'RuntimeError', 'KeyError', 'struct.error', 'MemoryErr
 
 class Injected(Exception):
     pass
+
+
+class SourceHiccup(OSError):
+    """Raised by the harness's SOURCE (not by an inspector): the data is still there on the next read."""
 
 
 class Unprintable(Exception):
@@ -160,6 +164,10 @@ def run_recorded(case):
                 self.closed = False
 
             def read(self, n=-1):
+                self.ncalls = getattr(self, 'ncalls', 0) + 1
+                if self.ncalls == case.get('source_fault_at'):
+                    # the source itself reports a transient error once, consuming nothing; the reader will retry
+                    raise SourceHiccup('source read failed once')
                 c = data[self.pos:] if n is None or n < 0 else data[self.pos:self.pos + n]
                 self.pos += len(c)
                 log.append(('src', len(produced), c))
@@ -216,6 +224,12 @@ def run_recorded(case):
                     log.append(('state', name, len(produced) - 1, None, None))
             return r
         insp.eat_chunk = eat
+        orig_finish = insp.finish
+
+        def fin():
+            log.append(('finish', name, len(produced)))
+            return orig_finish()
+        insp.finish = fin
     for insp in w._inspectors:
         hook(insp)
     reader_exc = None
@@ -229,7 +243,10 @@ def run_recorded(case):
             k = 0
             sizes = [len(c) for c in chunks] + [1 << 16]           # a size of 0 is a read(0) in mid-stream
             for s in sizes:
-                c = w.read(s)
+                try:
+                    c = w.read(s)
+                except SourceHiccup:
+                    c = w.read(s)              # the reader retries after the source's own transient error
                 log.append(('ret', k, c))
                 k += 1
     except Exception as e:
@@ -262,6 +279,16 @@ def check_log(rec, case):
     ret = [e for e in log if e[0] == 'ret']
     expected = case.get('expected')
     reader_exc = rec['reader_exc']
+    # T6 the wrapper tells an inspector that the stream is over only when it is: no data is produced by the source after an
+    # inspector was finished (a source error followed by a successful retry is not the end of the stream)
+    count('T6-finish-only-at-end-of-stream')
+    fin_at = [i for i, e in enumerate(log) if e[0] == 'finish']
+    if fin_at:
+        later = [e for e in log[fin_at[0]:] if e[0] == 'src' and len(e[2]) > 0]
+        if later:
+            bad.append(('T6-finish-only-at-end-of-stream',
+                        {'finished': log[fin_at[0]][1], 'after_source_chunks': log[fin_at[0]][2],
+                         'bytes_produced_afterwards': sum(len(e[2]) for e in later)}))
     # T1 conservation
     count('T1-conservation')
     for k, r in enumerate(ret):
@@ -344,7 +371,9 @@ def evaluate(ctx, case):
     plan = case.get('plan') or {}
     key = (repr(case.get('spec') or case.get('data')), tuple(case['cuts']), case['source'], case.get('expected'),
            tuple(case.get('allowed') or ()), tuple(sorted((k, tuple(v)) for k, v in plan.items())), case.get('line_fault'),
-           case.get('line_target'), tuple(case.get('empties') or ()), case.get('expected_style'))
+           case.get('line_target'), tuple(case.get('empties') or ()), case.get('expected_style'), case.get('source_fault_at'))
+    if case.get('source_fault_at'):
+        ctx.clause('source-error-then-retry')
     if case.get('expected_style'):
         ctx.clause('expected_format-given-as-str-subclass')
     ctx.case(key, nontrivial=bool(plan) or bool(case.get('expected')) or bool(case.get('line_fault')))
@@ -426,6 +455,8 @@ def run(ctx):
         idx += 1
         if case.get('expected') in NAMES and idx % 5 in (0, 1):
             case = dict(case, expected_style='strenum' if idx % 5 == 0 else 'strsub')
+        if case.get('source') == 'file' and idx % 6 == 3 and not case.get('line_fault'):
+            case = dict(case, source_fault_at=1 + (idx // 6) % (len(case['cuts']) + 2))
         if ctx.mine(idx):
             ctx.sample(klass, {k: v for k, v in case.items() if k != 'data'})
             evaluate(ctx, case)
